@@ -7,6 +7,7 @@ from math import comb
 
 from vf.combi import combinations_range, digits
 from vf.core import Job, new_result, viol
+from vf.guard import run as guarded_run
 
 LEVEL = "exploration"
 RULE = (
@@ -47,10 +48,9 @@ def judge(graph, s, t, n, arcs, label=None):
     cap = {}
     for u, v, w in arcs:
         cap[(u, v)] = cap.get((u, v), 0) + w
-    try:
-        res = max_flow(graph, lab(s), lab(t))
-    except Exception as ex:  # noqa: BLE001
-        return [("raised", f"{type(ex).__name__}: {ex}")], "raised", False
+    res, err = guarded_run(lambda: max_flow(graph, lab(s), lab(t)))
+    if err:
+        return [(err.split()[0].rstrip(":"), err)], err.split()[0], False
     errs = []
     flows = res.solution
     inv = {lab(x): x for x in range(n)}
@@ -98,6 +98,8 @@ def build(n, arcs, order, all_keys, label=None):
 def _record(r, errs, label, nontrivial, wit, call):
     r["n"] += 1
     r["outcomes"][label] += 1
+    if label == "nontermination":
+        r["counters"]["hangs"] += 1
     if nontrivial:
         r["nontrivial"] += 1
     if not r["samples"]:
@@ -129,7 +131,7 @@ def _n4_chunk(params, lo, hi):
         arcs = [(PAIRS4[i][0], PAIRS4[i][1], caps[d]) for i, d in enumerate(ds) if caps[d] is not None]
         s, t = ST4[st]
         run_one(r, 4, arcs, s, t, (idx // 4) % 2, True)
-        if len(r["violations"]) >= 40:
+        if len(r["violations"]) >= 40 or r["counters"]["hangs"] >= 2:
             r["capped"] = True
             break
     return r
@@ -143,7 +145,7 @@ def _unit_chunk(params, lo, hi):
         arcs = [(pairs[i][0], pairs[i][1], 1) for i in c]
         for order in orders:
             run_one(r, n, arcs, 0, n - 1, order, order == 1)
-        if len(r["violations"]) >= 40:
+        if len(r["violations"]) >= 40 or r["counters"]["hangs"] >= 2:
             r["capped"] = True
             break
     return r
@@ -160,13 +162,13 @@ def _arclist_chunk(params, lo, hi):
         ds = digits(idx, len(ARC_OPTS), L)
         arcs = [ARC_OPTS[d] for d in ds]
         run_one(r, 4, arcs, 0, 3, 0, False)
-        if len(r["violations"]) >= 40:
+        if len(r["violations"]) >= 40 or r["counters"]["hangs"] >= 2:
             r["capped"] = True
             break
     return r
 
 
-LABELS = [["s", "a", "b", "t"], [10, "x", (1, 2), 2.5], [("n", 0), ("n", 1), ("n", 2), ("n", 3)], [3, 2, 1, 0]]
+LABELS = [["s", "a", "b", "t"], [None, "x", (1, 2), 2.5], [10, "x", (1, 2), 2.5], [("n", 0), ("n", 1), ("n", 2), ("n", 3)], [3, 2, 1, 0]]
 
 
 def _label_chunk(params, lo, hi):
@@ -182,7 +184,7 @@ def _label_chunk(params, lo, hi):
         arcs = [(PAIRS4[i][0], PAIRS4[i][1], caps[d]) for i, d in enumerate(ds) if caps[d] is not None]
         s, t = ((0, 3), (3, 0), (1, 2))[sti]
         run_one(r, 4, arcs, s, t, 0, False, LABELS[li])
-        if len(r["violations"]) >= 40:
+        if len(r["violations"]) >= 40 or r["counters"]["hangs"] >= 2:
             r["capped"] = True
             break
     return r
@@ -197,8 +199,18 @@ def jobs(tier, seed):
         js.append(Job(f"n6_unit_{k}arcs", comb(30, k), _unit_chunk, (6, k, (0, 1) if k <= 5 else (0,)), describe="unit-capacity digraphs on 6 nodes, s=0,t=5 (contains the smallest witnesses of the residual-arc defect)"))
     for L in (1, 2, 3, 4):
         js.append(Job(f"arclists_len{L}", len(ARC_OPTS) ** L, _arclist_chunk, L, describe="ordered arc lists with parallel/anti-parallel arcs, caps {1,2}"))
-    nl = len(LABELS) if tier == "thorough" else 2
+    nl = len(LABELS) if tier == "thorough" else 2  # quick: strings, and a mixed set in which node 0 is labelled None
     js.append(Job("n4_labels_zero_caps", 3**12 * nl, _label_chunk, nl, describe="4 nodes, pair in {absent, cap0, cap1}, string/tuple/mixed labels, (s,t) rotating over (0,3),(3,0),(1,2) with the graph code"))
+    # capacities {1,2} on 6 nodes: partial cancellation on an anti-parallel pair needs a 6-node, 8-arc network
+    for k in (6, 7, 8):
+        size = comb(20, k) * 2**k
+        if tier == "thorough":
+            js.append(Job(f"n6_layered_{k}arcs_caps12", size, _layered_chunk, (k, 0), describe="6 nodes, source out-arcs only, sink in-arcs only, k arcs with capacity 1 or 2"))
+        else:
+            blocks = 4 if k < 8 else 16
+            b = seed % blocks
+            lo, hi = size * b // blocks, size * (b + 1) // blocks
+            js.append(Job(f"n6_layered_{k}arcs_caps12_block{b}of{blocks}", hi - lo, _layered_chunk, (k, lo), describe="rotating block (VERIF_SEED) of the layered 6-node networks with capacities {1,2}"))
     if tier == "thorough":
         js.append(Job("n4_caps_absent012_st03", 4**12 * 4, _n4_chunk, (None, 0, 1, 2), describe="adds zero capacities: 4^12 graphs x 12 (s,t)"))
         for k in range(8, 21):
@@ -210,6 +222,31 @@ def jobs(tier, seed):
         lo, hi = size * b // 64, size * (b + 1) // 64
         js.append(Job(f"n6_unit_8arcs_block{b}of64", hi - lo, _unit8_block, lo, describe="rotating 1/64 block of the 8-arc graphs on 6 nodes"))
     return js
+
+
+LAYERED = sorted([(0, x) for x in (1, 2, 3, 4)] + [(x, 5) for x in (1, 2, 3, 4)] + [(u, v) for u in (1, 2, 3, 4) for v in (1, 2, 3, 4) if u != v])
+
+
+def _layered_chunk(params, lo, hi):
+    """6 nodes, source 0 with outgoing arcs only, sink 5 with incoming arcs only, k of the 20 possible arcs, capacity
+    of each chosen arc in {1,2}: index = comb_index * 2^k + capacity_code (offset in params)"""
+    k, off = params
+    per = 1 << k
+    lo += off
+    hi += off
+    r = new_result()
+    c_lo, c_hi = lo // per, (hi - 1) // per + 1
+    for ci, c in enumerate(combinations_range(len(LAYERED), k, c_lo, c_hi), start=c_lo):
+        for code in range(per):
+            idx = ci * per + code
+            if idx < lo or idx >= hi:
+                continue
+            arcs = [(LAYERED[c[i]][0], LAYERED[c[i]][1], 1 + (code >> i & 1)) for i in range(k)]
+            run_one(r, 6, arcs, 0, 5, 0, False)
+        if len(r["violations"]) >= 40 or r["counters"]["hangs"] >= 2:
+            r["capped"] = True
+            break
+    return r
 
 
 def _unit8_block(params, lo, hi):
